@@ -23,7 +23,8 @@ def cases(draw):
     # how the validators come to exist: each with its own explicit resolver (default), all over the very same
     # schema OBJECT with the default resolver, or later ones seeded with the first one's store
     w["construction"] = draw(st.sampled_from(["own-resolver", "own-resolver", "same-schema-object", "seeded-from-first-store",
-                                             "equal-schemas-different-stores"]))
+                                             "equal-schemas-different-stores", "shared-reference-objects",
+                                             "first-cannot-retrieve"]))
     # make errors plentiful: an extra always-failing-somewhere property with a format and a pattern
     return w
 
@@ -99,6 +100,31 @@ def build(case, k, shared=None):
         resolver = impl.validators.RefResolver.from_schema(c["root"], id_of=cls.ID_OF, store=store)
         v = cls(c["root"], resolver=resolver, format_checker=checker_for(k))
         return v
+    if how == "shared-reference-objects" and shared is not None:
+        # schemas assembled from shared parts: every {"$ref": ...} object of the first validator's schema IS (the same
+        # Python object) the one at the same place in the others' schemas -- while the definitions they name differ
+        cls = impl.CLS[c["draft"]]
+        root = copy.deepcopy(c["root"])
+        if "root0" not in shared:
+            shared["root0"] = root
+        else:
+            def share(a, b):
+                if isinstance(a, dict) and isinstance(b, dict):
+                    if "$ref" in b and a == b:
+                        return a
+                    for kk in list(b):
+                        if kk in a:
+                            b[kk] = share(a[kk], b[kk])
+                elif isinstance(a, list) and isinstance(b, list):
+                    for i in range(min(len(a), len(b))):
+                        b[i] = share(a[i], b[i])
+                return b
+            root = share(shared["root0"], root)
+        store = dict((u + ("#" if c["via"].get(u) == "store#" else ""), copy.deepcopy(dd)) for u, dd in c["docs"].items()
+                     if c["via"].get(u) in ("store", "store#"))
+        h = GW.Handler(c)
+        resolver = impl.validators.RefResolver.from_schema(root, id_of=cls.ID_OF, store=store, handlers={"http": h, "https": h})
+        return cls(root, resolver=resolver, format_checker=checker_for(k))
     if how == "seeded-from-first-store" and shared is not None and "first" in shared:
         # the documented way to pre-load documents: pass a mapping as `store` -- here the first resolver's
         extra = dict((u, copy.deepcopy(dd)) for u, dd in c["docs"].items() if c["via"].get(u) in ("store", "store#"))
@@ -158,7 +184,7 @@ class C18(Prop):
                    "(sys.setswitchinterval), not enumerated"]
     GATES = {"suspended-in-scope": 100, "exhaustive-interleavings": 100, "threads": 20,
              "construction:same-schema-object": 50, "construction:seeded-from-first-store": 50,
-             "construction:equal-schemas-different-stores": 50}
+             "construction:equal-schemas-different-stores": 50, "construction:shared-reference-objects": 50, "construction:first-cannot-retrieve": 50}
     MIN_NONTRIVIAL = 100
 
     def strategy(self, tier):
@@ -279,6 +305,19 @@ class C18(Prop):
 
     def run_schedule(self, res, case, n, sc, solos):
         shared = {}
+        if case.get("construction") == "first-cannot-retrieve":
+            # somebody else's resolver, with no handler and no store entry for the world's documents, has tried to get
+            # them and failed (the network is stubbed out): that is its problem alone
+            lone = impl.validators.RefResolver("", {})
+            for u in sorted(case["docs"]):
+                try:
+                    lone.resolve(u)
+                except impl.exceptions.RefResolutionError:
+                    pass
+                except Exception:
+                    pass
+            from .. import netstub
+            netstub.reset()
         vs = [build(case, k, shared) for k in range(n)]
         its = [vs[k].iter_errors(instance_for(case, k)) for k in range(n)]
         depth0 = [impl.stack_depth(v.resolver) for v in vs]
@@ -287,7 +326,8 @@ class C18(Prop):
         done = [False] * n
         switches_in_scope = 0
         last = None
-        order = list(sc) + [k for k in range(n)] * 64
+        import itertools as _it
+        order = _it.chain(list(sc), _it.islice(_it.cycle(range(n)), 200000))       # round-robin until everybody is done
         for k in order:
             k = k % n
             if all(done):
